@@ -221,6 +221,8 @@ def run(run):
     run.bounds['rendering'] = 'Display for JmespathError executed from its MIR on every JmespathError::new path: reason, (line l, column c), expression, caret line'
     run_jobs(run, jobs, task, 'mirsym: JmespathError::new + Display on symbolic strings; rejecting parser paths; runtime errors of calls')
     D = ('digit',)
+    import time as _t
+    run.deadline = max(run.deadline, _t.time() + (60 if run.tier == 'quick' else 900))      # each phase gets its own slice of the budget
     LJ.run_sharded(run, PROG, [[None], [None, None], ['a', None, None], ["'", None, None], ['"', None, '"'], ['`', None, '`'], ['é', None, None], ['\n', None, None], ['a', '\n', 'é', None]], 'mirsym: lexer error positions on symbolic code points', keyprefix='c12x')
     run.cands = [c for c in run.cands if c['key'].startswith('c12:') or c['key'] in ('error-coordinates', 'errnew-panic')]
     res = K.run_harnesses(run, ['c12_line_column_small', 'c12_line_column'], timeout=420 if run.tier == 'quick' else 1800)
